@@ -7,7 +7,7 @@
    allocated during the call) and (b) the harness's deep before/after snapshots and pointer
    identity probe on every generated call.  See DESIGN C12 for what remains partial. *)
 From Coq Require Import ZArith Bool List String.
-From Sidetree Require Import Json.Json Sidetree.Protocol Sidetree.Composer Sidetree.Applier.
+From Sidetree Require Import Json.Json Sidetree.Protocol Sidetree.Composer Sidetree.Applier Sidetree.ApplierAtomic.
 Import ListNotations.
 
 (* A patch list whose k-th patch fails yields no document at all, whatever precedes/follows. *)
@@ -36,6 +36,35 @@ Theorem C12_degraded_update_keeps_document_partial : forall cfg compose a rm rm'
   apply cfg compose a rm = Some rm' -> rm_doc rm' = Some doc.
 Proof. exact degraded_update_keeps_document. Qed.
 Print Assumptions C12_degraded_update_keeps_document_partial.
+
+(* A degraded create / recover (patches fail to apply) has the empty document - not the result of
+   the patches that came before the failing one. *)
+Theorem C12_degraded_create_has_empty_document : forall cfg compose a rm rm',
+  a_type a = TCreate -> compose [] (v_patches (a_view a)) = None ->
+  apply cfg compose a rm = Some rm' -> rm_doc rm' = Some [].
+Proof. exact degraded_create_empty. Qed.
+Print Assumptions C12_degraded_create_has_empty_document.
+
+Theorem C12_degraded_recover_has_empty_document : forall cfg compose a rm rm',
+  a_type a = TRecover -> compose [] (v_patches (a_view a)) = None ->
+  apply cfg compose a rm = Some rm' -> rm_doc rm' = Some [].
+Proof. exact degraded_recover_empty. Qed.
+Print Assumptions C12_degraded_recover_has_empty_document.
+
+(* All or nothing, for every operation type: the document of the new state is the composer's whole
+   result for the operation's patch list, or the previous document (update), or the empty
+   document (create / recover / deactivate) - never anything in between. *)
+Theorem C12_document_all_or_nothing : forall cfg compose a rm rm',
+  apply cfg compose a rm = Some rm' ->
+  match a_type a with
+  | TUpdate => exists doc, rm_doc rm = Some doc /\
+                 (rm_doc rm' = Some doc \/ exists d, compose doc (v_patches (a_view a)) = Some d /\ rm_doc rm' = Some d)
+  | TCreate | TRecover => rm_doc rm' = Some [] \/ exists d, compose [] (v_patches (a_view a)) = Some d /\ rm_doc rm' = Some d
+  | TDeactivate => rm_doc rm' = Some []
+  | TOther => False
+  end.
+Proof. exact document_all_or_nothing. Qed.
+Print Assumptions C12_document_all_or_nothing.
 
 Example C12_nonvacuous :
   apply_patches [] [JObj [("action", JStr "add-also-known-as"); ("uris", JArr [JStr "u:1"])];
